@@ -93,6 +93,8 @@ func forms() []form {
 
 			return "success", 0
 		}},
+		{name: "alloc-genfail", method: wire.Allocate, attrs: udp, want: errIfAlloc(0)},
+		{name: "alloc-quota-refused", method: wire.Allocate, attrs: udp, want: errIfAlloc(0)},
 		{name: "alloc-fam6", method: wire.Allocate, attrs: func(b *wire.B) { udp(b); b.U32(wire.AttrRequestedFamily, 0x02000000) }, want: allocOK},
 		{name: "alloc-fam4", method: wire.Allocate, attrs: func(b *wire.B) { udp(b); b.U32(wire.AttrRequestedFamily, 0x01000000) }, want: allocOK},
 		{name: "alloc-unknown-required", method: wire.Allocate, attrs: func(b *wire.B) { udp(b); b.Attr(0x7777, []byte{1, 2, 3, 4}) },
@@ -222,7 +224,12 @@ func runSeq(t *testing.T, wd world, fs []form, seq []int, r *rep.Report, record 
 					gen0 = w.GenCalls
 				}
 				retries0 := c.Retries
+				if f.name == "alloc-genfail" && a == nil {
+					w.GenFailNext = 1
+				}
+				w.QuotaDeny = f.name == "alloc-quota-refused"
 				res := c.Request(f.method, tx, f.attrs)
+				w.GenFailNext, w.QuotaDeny = 0, false
 				lbl := fmt.Sprintf("%s:%s[tx=%s]", cn, f.name, f.tx)
 				fail := func(sig, detail string) {
 					v = &viol{sig, fmt.Sprintf("%s: %s; trace=%v", lbl, detail, trace)}
@@ -336,6 +343,11 @@ func runSeq(t *testing.T, wd world, fs []form, seq []int, r *rep.Report, record 
 						return
 					}
 					if isRetx {
+						if got, want := respAttrs(res.Resp), a.Note; got != want {
+							fail("idempotence:retransmitted-allocate-differs", fmt.Sprintf("attributes %s vs original %s", got, want))
+
+							return
+						}
 						if ra.String() != a.Relay.String() || time.Duration(lt)*time.Second != a.Granted0 {
 							fail("idempotence:retransmitted-allocate-differs", fmt.Sprintf("relay %v vs %v lifetime %d vs %v", ra, a.Relay, lt, a.Granted0))
 
@@ -387,7 +399,8 @@ func runSeq(t *testing.T, wd world, fs []form, seq []int, r *rep.Report, record 
 							lastToken, lastTokenPort = append([]byte(nil), tok...), ra.Port+1
 						}
 						x.M.Allocs[cn] = &vtx.MAlloc{Client: cn, User: c.User, Fam: fam, Relay: ra, Exp: now.Add(x.M.Granted(-1)),
-							Granted: x.M.Granted(-1), Granted0: x.M.Granted(-1), Tx: res.Tx, Perms: map[string]time.Time{}, Chans: map[uint16]*vtx.MChan{}}
+							Granted: x.M.Granted(-1), Granted0: x.M.Granted(-1), Tx: res.Tx, Perms: map[string]time.Time{}, Chans: map[uint16]*vtx.MChan{},
+							Note: respAttrs(res.Resp)}
 					}
 				}
 				if got == "success" && a != nil {
@@ -483,4 +496,18 @@ func TestC19(t *testing.T) {
 		}
 	}
 	r.Depth = depth
+}
+
+// respAttrs renders the attributes of a success response that a retransmission must repeat.
+func respAttrs(m *wire.Msg) string {
+	out := ""
+	for _, a := range m.Attrs {
+		switch a.Type {
+		case wire.AttrMessageIntegrity, wire.AttrFingerprint, wire.AttrSoftware:
+		default:
+			out += fmt.Sprintf("%#04x=%x ", a.Type, a.Value)
+		}
+	}
+
+	return out
 }
